@@ -41,6 +41,7 @@ CONSTANTS
   Cfg0,       \* initial CFG edges: set of <<ir, <<source, target, label>>>>
   Pay0,       \* initial symbol payloads: set of <<symbol, payload>>
   Entry0,     \* initial entry points: set of <<module, code block>>
+  Geom0,      \* initial interval geometry: set of <<interval, address, size>> (others: no address, size 0)
   ReloadWeight, \* how many times Reload is offered to the random simulator (>= 1)
   SweepOps,   \* operation names allowed as the later steps of a sweep
   SweepMode,  \* BOOLEAN: is this configuration a sweep
@@ -254,7 +255,8 @@ InitS ==
   IN Go(E, Attach0)
 
 Init ==
-  /\ addr = [v \in Intervals |-> NOADDR] /\ isz = [v \in Intervals |-> 0]
+  /\ addr = [v \in Intervals |-> IF \E a \in Geom0 : a[1] = v THEN (CHOOSE a \in Geom0 : a[1] = v)[2] ELSE NOADDR]
+  /\ isz = [v \in Intervals |-> IF \E a \in Geom0 : a[1] = v THEN (CHOOSE a \in Geom0 : a[1] = v)[3] ELSE 0]
   /\ off = [b \in Blocks |-> 0] /\ bsz = [b \in Blocks |-> 0]
   /\ sname = [y \in Symbols |-> DefName]
   /\ pay = [y \in Symbols |-> IF \E a \in Pay0 : a[1] = y THEN (CHOOSE a \in Pay0 : a[1] = y)[2] ELSE NONE]
@@ -778,7 +780,8 @@ NodeDeq(i, n) ==
 SelfContained(i) ==
   LET R == Sub(S0, i) IN
   /\ \A y \in Symbols \cap R : pay[y] \in Referents => ModOf(pay[y]) = par[y]
-  /\ \A m \in Modules \cap R : entry[m] # NONE => ModOf(entry[m]) = m
+  \* (an entry point only has to be attached to this IR: it may be a block of another module, C01)
+  /\ \A m \in Modules \cap R : entry[m] # NONE => entry[m] \in R
   /\ \A v \in Intervals \cap R : \A kv \in symx[v] :
         /\ ExprSym[kv[2]] # NONE /\ ModOf(ExprSym[kv[2]]) = ModOf(v)
         /\ KindOf(kv[2]) = "aa" => (Sym2Of(kv[2]) # NONE /\ ModOf(Sym2Of(kv[2])) = ModOf(v))
@@ -807,6 +810,31 @@ Reload(i) ==
   /\ shadow' = IF On("shadow") THEN [shadow EXCEPT ![i] = ShadowOf(i)] ELSE shadow
   /\ UNCHANGED <<mods, kids, par, cache, nidx, ridx, geomVars, symVars, symx, cfg, bytes, tags, entry, scal>>
 
+\* ---- the reader alone (C02, second half; C09): a message written by somebody else only has to be schema-valid
+\* and referentially closed -- references may cross modules in either direction, whatever the order in which
+\* the modules are listed.  The abstract state does not change; the harness writes MsgOf(i) with an independent
+\* writer, loads it and compares.  fwd says whether some reference names a node of a module listed later.
+RefClosed(i) ==
+  LET R == Sub(S0, i) IN
+  /\ \A y \in Symbols \cap R : pay[y] \in Referents => pay[y] \in R
+  /\ \A m \in Modules \cap R : entry[m] # NONE => entry[m] \in R
+  /\ \A v \in Intervals \cap R : \A kv \in symx[v] :
+        /\ ExprSym[kv[2]] \in R
+        /\ KindOf(kv[2]) = "aa" => Sym2Of(kv[2]) \in R
+  /\ \A e \in cfg[i] : e[1] \in R /\ e[2] \in R
+PosOf(i, m) == CHOOSE k \in 1..Len(mods[i]) : mods[i][k] = m
+Later(i, a, b) == PosOf(i, ModOf(a)) > PosOf(i, ModOf(b))     \* a's module is listed after b's
+FwdReferent(i) == \E y \in Symbols \cap Sub(S0, i) : pay[y] \in Referents /\ Later(i, pay[y], y)
+FwdExpr(i) == \E v \in Intervals \cap Sub(S0, i) : \E kv \in symx[v] :
+                 \/ Later(i, ExprSym[kv[2]], v)
+                 \/ (KindOf(kv[2]) = "aa" /\ Later(i, Sym2Of(kv[2]), v))
+ReadMsg(i) ==
+  /\ On("readmsg") /\ RefClosed(i) /\ Closed(i) /\ scal[i]["version"] = "CUR"
+  /\ op' = [name |-> "readmsg", ir |-> i, msg |-> MsgOf(i), res |-> NONE,
+            fwd |-> IF FwdReferent(i) /\ FwdExpr(i) THEN "referent+expr" ELSE IF FwdReferent(i) THEN "referent"
+                    ELSE IF FwdExpr(i) THEN "expr" ELSE "-"]
+  /\ UNCHANGED absView
+
 -----------------------------------------------------------------------------
 (* Files the writer never produces (C09 second half, C17): one structural    *)
 (* fault injected into the message of a self-contained IR.  The abstract     *)
@@ -831,6 +859,14 @@ WrongKind(i, s) ==
     [] s.site \in {"expr.sym1", "expr.sym2"} -> R \cap (Blocks \cup Proxies \cup Sections)
 \* two attached nodes written with one UUID (every reference to either then names that UUID)
 DupPairs(i) == {A \in UpTo(Sub(S0, i) \ {i}, 2) : Cardinality(A) = 2}
+\* every enum-typed field of the message, to be written with a number the schema does not define
+\* (expression attributes are exempt: unknown numbers are kept, PROTOBUF.md)
+EnumSites(i) ==
+  LET R == Sub(S0, i) IN
+  {Site("enum", m, f, "-") : m \in R \cap Modules, f \in {"isa", "file_format", "byte_order"}}
+  \cup {Site("enum", s, "section_flags", "-") : s \in R \cap Sections}
+  \cup {Site("enum", b, "decode_mode", "-") : b \in R \cap CodeBlocks}
+  \cup {Site("enum.edge", e[1], e[2], e[3]) : e \in {x \in cfg[i] : x[3] # "nolabel"}}
 OtherFaults == {"dup-uuid-same-kind", "dup-uuid-cross-kind", "unknown-enum", "uuid-too-short", "uuid-too-long",
                 "contents-exceed-size", "contents-exceed-zero-size",
                 "bad-magic", "bad-version-byte", "bad-version-field", "zero-version-field", "truncated-header"}
@@ -838,7 +874,8 @@ FaultExpect(f) == IF f \in {"bad-magic", "bad-version-byte", "bad-version-field"
                               "truncated-header"} THEN "ValueError"
              ELSE "reject-or-coherent"
 LoadFault(i) ==
-  /\ On("fault") /\ SelfContained(i) /\ scal[i]["version"] = "CUR"
+  \* (references may cross modules: a reader has to check every reference of every referentially closed message)
+  /\ On("fault") /\ RefClosed(i) /\ Closed(i) /\ scal[i]["version"] = "CUR"
   /\ \/ \E s \in RefSites(i) :
           \/ op' = [name |-> "loadfault", ir |-> i, msg |-> MsgOf(i), fault |-> "dangling", site |-> s, to |-> NONE,
                      expect |-> "DeserializationError", res |-> NONE]
@@ -848,6 +885,9 @@ LoadFault(i) ==
      \/ \E f \in OtherFaults :
           op' = [name |-> "loadfault", ir |-> i, msg |-> MsgOf(i), fault |-> f, site |-> Site("-", "-", "-", "-"),
                  to |-> NONE, expect |-> FaultExpect(f), res |-> NONE]
+     \/ \E s \in EnumSites(i) :
+          op' = [name |-> "loadfault", ir |-> i, msg |-> MsgOf(i), fault |-> "unknown-enum-at", site |-> s,
+                 to |-> NONE, expect |-> "reject-or-coherent", res |-> NONE]
      \/ \E A \in DupPairs(i) :
           LET a == CHOOSE x \in A : TRUE
               b == CHOOSE x \in A : x # a
@@ -898,6 +938,7 @@ Next ==
        \E K \in UpTo(ChildKinds(n), ArgMax) : New(n, p, K)
   \/ G({"reload"}) /\ \E i \in IRs, w \in 1..ReloadWeight : Reload(i) \/ ReloadRefused(i)
   \/ G({"loadfault"}) /\ \E i \in IRs : LoadFault(i)
+  \/ G({"readmsg"}) /\ \E i \in IRs : ReadMsg(i)
 
 \* state constraints for "one perturbation, then ..." sweeps
 Depth2 == TLCGet("level") <= 2
